@@ -425,25 +425,22 @@ namespace ratio
             }
 
         if (const auto at_rhos_p = gr.rhos.find(variable(p)); at_rhos_p != gr.rhos.cend())
-            switch (sat->value(at_rhos_p->first))
-            {
-            case True: // some resolvers have been activated..
-                for (const auto &r : at_rhos_p->second)
+        { // resolvers are indexed by the variable of their rho: we look at the value of each rho literal (e.g., the two resolvers of a boolean flaw share the variable with opposite signs)..
+            for (const auto &r : at_rhos_p->second)
+                switch (sat->value(r->rho))
                 {
+                case True: // the resolver has been activated..
                     if (flaws.erase(&r->effect) && !root_level()) // this resolver has been activated, hence its effect flaw has been resolved (notice that we remove its effect only in case it was already active)..
                         trail.back().solved_flaws.insert(&r->effect);
                     gr.activated_resolver(*r);
-                }
-                if (root_level()) // since we are at root-level, we can perform some cleaning..
-                    gr.rhos.erase(at_rhos_p);
-                break;
-            case False: // some resolvers have been negated..
-                for (const auto &r : at_rhos_p->second)
+                    break;
+                case False: // the resolver has been negated..
                     gr.negated_resolver(*r);
-                if (root_level()) // since we are at root-level, we can perform some cleaning..
-                    gr.rhos.erase(at_rhos_p);
-                break;
-            }
+                    break;
+                }
+            if (root_level()) // since we are at root-level, we can perform some cleaning..
+                gr.rhos.erase(at_rhos_p);
+        }
 
         return true;
     }
